@@ -21,6 +21,8 @@ func init() {
 			ruleIndexRebuildComplete(c, "R2b")
 			ruleRemoversUpdateTreeSummary(c, "R3")
 			ruleCleanTestsEveryChild(c, "R4")
+			ruleConcatRank(c, "R5")
+			ruleStoredListsAreCopies(c, "R5b")
 		},
 	})
 }
@@ -195,7 +197,11 @@ func ruleForwarders(c *Ctx, rule string) {
 			}
 			callTerm = callString(c, calls[0])
 			good := callTerm == e.call
-			c.R.Add(rule, e.fn, "forwards", c.pos(calls[0]), good, ifelse(good, callTerm, "forwards "+callTerm+", the documented desugaring is "+e.call))
+			why := ""
+			if !good {
+				good, why = c.forwardsThroughExpansion(f, calls[0], callTerm, e.call)
+			}
+			c.R.Add(rule, e.fn, "forwards", c.pos(calls[0]), good, ifelse(good, ifelse(why == "", callTerm, why), ifelse(why != "", why, "forwards "+callTerm+", the documented desugaring is "+e.call)))
 		} else if len(calls) != 0 {
 			c.R.Add(rule, e.fn, "no-effect", c.P.Pos(f.Pos()), false, "the constructor of the facade has side effects: "+c.O.Of(calls[0]).String())
 		}
